@@ -185,6 +185,14 @@ func (pxy *UDPProxy) Run() (remoteAddr string, err error) {
 		// Sleep a while for waiting control send the NewProxyResp to client.
 		time.Sleep(500 * time.Millisecond)
 		for {
+			// The proxy may have been closed in the meantime: don't take a work connection for it.
+			pxy.mu.Lock()
+			closed := pxy.isClosed
+			pxy.mu.Unlock()
+			if closed {
+				return
+			}
+
 			workConn, err := pxy.GetWorkConnFromPool(nil, nil)
 			if err != nil {
 				time.Sleep(1 * time.Second)
@@ -223,7 +231,15 @@ func (pxy *UDPProxy) Run() (remoteAddr string, err error) {
 				})
 			}
 
+			pxy.mu.Lock()
+			if pxy.isClosed {
+				// Closed while the work connection was being fetched: nobody else would close it.
+				pxy.mu.Unlock()
+				workConn.Close()
+				return
+			}
 			pxy.workConn = netpkg.WrapReadWriteCloserToConn(rwc, workConn)
+			pxy.mu.Unlock()
 			ctx, cancel := context.WithCancel(context.Background())
 			go workConnReaderFn(pxy.workConn)
 			go workConnSenderFn(pxy.workConn, ctx)
